@@ -5,8 +5,8 @@ import SctpVerif.Proofs.Sender.Callback
 * `MsgInv`: the fragments of one message share stream and payload type (message identities are fresh per write).
 * `NoAb Q`: no chunk whose (stream, payload type) satisfies `Q` belongs to an abandoned message — kept by every step as long
   as `checkPartialReliabilityStatus` leaves such chunks alone (`Safe Q`): DCEP always, a stream with reliable policy.
-* T3 and RACK/PTO marks never flag an abandoned chunk, the fast-retransmit gather never takes one; the T3 retransmission
-  gather (`getDataPacketsToRetransmit`) takes exactly the flagged chunks and does NOT look at `abandoned()`. -/
+* T3 and RACK/PTO marks never flag an abandoned chunk; neither the fast-retransmit gather nor the T3 retransmission
+  gather (`getDataPacketsToRetransmit`, since the fix of D21) takes one. -/
 namespace SenderProofs
 open Gen Sender
 
@@ -782,22 +782,32 @@ theorem scanLoop_out {B : Type} (s : St) (dec : Int → LoopAcc B → Chunk → 
         · exact Or.inr ⟨c, List.mem_cons_self, h, hP i a c b bip ha hd⟩
       · exact Or.inr ⟨y, List.mem_cons_of_mem _ hy, e, hp⟩
 
-/-- `getDataPacketsToRetransmit` puts on the wire exactly chunks that carry the `retransmit` flag — it does not test `abandoned()` -/
+/-- `getDataPacketsToRetransmit` puts on the wire only chunks that carry the `retransmit` flag and are not abandoned -/
 theorem gatherRtx_sends_flagged (s : St) (orc : Oracle) :
-    ∀ x ∈ (gatherRtx s orc).2.1, ∃ c ∈ s.inflight, c.retransmit = true ∧ x = rtxUpd s c := by
+    ∀ x ∈ (gatherRtx s orc).2.1, ∃ c ∈ s.inflight, c.retransmit = true ∧ s.abandoned c = false ∧ x = rtxUpd s c := by
   intro x hx
-  have := scanLoop_out s (rtxDecide s orc.allow (rtx_awnd s.cwnd s.rwnd)) (rtxUpd s) (fun _ => True) (fun c => c.retransmit = true)
-    (fun _ _ _ => trivial)
+  have := scanLoop_out s (rtxDecide s orc.allow (rtx_awnd s.cwnd s.rwnd)) (rtxUpd s)
+    (fun aband => ∀ m ∈ s.abandonedMsgs, m ∈ aband) (fun c => c.retransmit = true ∧ s.abandoned c = false)
+    (fun aband c h m hm => checkPR_sub _ aband c m (h m hm))
     (by
-      intro i a c b bip _ hd
+      intro i a c b bip hI hd
       unfold rtxDecide at hd
       split at hd
       · cases hd
-      · rename_i h; simpa using h)
-    0 (scanSplit s).2 { b := orc.b, aband := s.abandonedMsgs } trivial x hx
+      · rename_i h1
+        split at hd
+        · cases hd
+        · rename_i h2
+          refine ⟨by simpa using h1, ?_⟩
+          cases hab : s.abandoned c with
+          | false => rfl
+          | true =>
+            have : isAbandoned a.aband s.allInflightMsgs c = true := isAbandoned_mono hI (fun _ h => h) rfl hab
+            rw [this] at h2; exact absurd rfl h2)
+    0 (scanSplit s).2 { b := orc.b, aband := s.abandonedMsgs } (fun _ h => h) x hx
   rcases this with h | ⟨c, hc, e, hp⟩
   · simp at h
-  · exact ⟨c, scanSplit_suffix_mem s hc, hp, e⟩
+  · exact ⟨c, scanSplit_suffix_mem s hc, hp.1, hp.2, e⟩
 
 /-- the fast-retransmit gather never takes a chunk that is acked or abandoned -/
 theorem gatherFast_skips_abandoned {B : Type} (s : St) (allow : B → Int → Bool × B) (b : B) :
